@@ -321,89 +321,133 @@ func checkSequentialApply(w *World, r *Report, fi *FuncInfo, rule, ruleAlias str
 	r.Check(il.CollObj == listObj && il.Dir == "fwd", rule, con+":source", il.Stmt.Pos(), true,
 		"the loop iterates over the builders it was given, front to back",
 		"the loop iterates ("+il.Dir+") over "+exprStr(rs.X)+", not front to back over the parameter "+listObj.Name()+": entries may be dropped, reordered or taken from a shared buffer")
-	// nil skip: first statement `if elem == nil { continue }`
-	nilSkip := false
-	var applyIf *ast.IfStmt
-	var applyCall *ast.CallExpr
-	for _, st := range rs.Body.List {
-		ifs, ok := st.(*ast.IfStmt)
-		if !ok {
-			continue
-		}
-		if isNilTestOf(info, ifs.Cond, func(e ast.Expr) bool { return objOf(info, e) == elem }, false) && len(ifs.Body.List) == 1 {
-			if b, ok := ifs.Body.List[0].(*ast.BranchStmt); ok && b.Tok == token.CONTINUE {
-				nilSkip = true
-			}
-		}
-		if as, ok := ifs.Init.(*ast.AssignStmt); ok && len(as.Rhs) == 1 {
-			if c, ok := unparen(as.Rhs[0]).(*ast.CallExpr); ok {
-				if id, ok := unparen(c.Fun).(*ast.Ident); ok && info.Uses[id] == elem {
-					applyIf, applyCall = ifs, c
-				}
-			}
-		}
-	}
-	r.Check(nilSkip, rule, con+":nil-skip", il.Stmt.Pos(), false, "nil entries are skipped", "nil entries are not skipped with `continue`")
-	if applyIf == nil {
-		r.Fail(rule, con+":error", il.Stmt.Pos(), "the builder's error is not checked with `if err := builder(c); err != nil`")
-		return
-	}
-	_ = applyCall
-	errObj := objOf(info, applyIf.Init.(*ast.AssignStmt).Lhs[0])
-	// body of the error branch: exactly one statement, a return
-	bad := ""
-	if len(applyIf.Body.List) != 1 {
-		bad = "the error branch does more than return the error"
-	} else if ret, ok := applyIf.Body.List[0].(*ast.ReturnStmt); !ok || len(ret.Results) != 1 {
-		bad = "the error branch does not return (processing continues after a failed registration)"
-	} else if wrap {
-		l := litOf(ret.Results[0])
-		tvOK := false
-		if l != nil {
-			if tv, ok := info.Types[l]; ok && isNamedType(tv.Type, modPath, "ModuleError") {
-				tvOK = true
-			}
-		}
-		if !tvOK {
-			bad = "the error is returned as " + exprStr(ret.Results[0]) + ", not wrapped in a ModuleError literal"
-		} else {
-			f := compositeFields(l)
-			if objOf(info, f["Cause"]) != errObj {
-				bad = "ModuleError.Cause is " + exprStr(f["Cause"]) + ", not the builder's error (double or missing wrap)"
-			}
-			if nameObj == nil || objOf(info, f["Module"]) != nameObj {
-				bad = "ModuleError.Module is " + exprStr(f["Module"]) + ", not the module's own name"
-			}
-		}
-	} else {
-		ret := applyIf.Body.List[0].(*ast.ReturnStmt)
-		if objOf(info, ret.Results[0]) != errObj {
-			bad = "AddModules returns " + exprStr(ret.Results[0]) + " instead of the module's error unchanged"
-		}
-	}
-	if applyIf.Else != nil {
-		bad = "the error check has an else branch"
-	}
-	r.Check(bad == "", rule, con+":error", applyIf.Pos(), true,
-		"the first failing builder stops processing and its error is returned "+map[bool]string{true: "wrapped exactly once as ModuleError{Module: name, Cause: err}", false: "unchanged"}[wrap],
-		fi.Name()+": "+bad)
-	// after the loop: return nil
-	okTail := false
-	fl := w.FlowOf(fi)
-	_ = fl
+	// On the function's control-flow graph: the builder is applied only when it is
+	// known to be non-nil; a failed application leads straight to a return of the
+	// error (wrapped once / unchanged) and never to the next builder; every other
+	// exit returns nil.
+	var body *ast.BlockStmt = fi.Decl.Body
 	ast.Inspect(fi.Decl.Body, func(x ast.Node) bool {
-		if bs, ok := x.(*ast.BlockStmt); ok {
-			for i, st := range bs.List {
-				if st == il.Stmt && i+1 < len(bs.List) {
-					if ret, ok := bs.List[i+1].(*ast.ReturnStmt); ok && len(ret.Results) == 1 && isNilIdent(info, ret.Results[0]) {
-						okTail = true
-					}
-				}
-			}
+		if lit, ok := x.(*ast.FuncLit); ok && isInside(il.Stmt, lit.Body) {
+			body = lit.Body // innermost literal containing the loop
 		}
 		return true
 	})
-	r.Check(okTail, rule, con+":tail", il.Stmt.End(), false, "nil is returned after all builders succeeded", "the loop is not followed directly by `return nil`")
+	fl := NewFlow(w, fi.Pkg, body, fi.Name())
+	var applyNode ast.Node
+	var errObj types.Object
+	for _, nd := range fl.Nodes() {
+		if nd.Pos() < il.Body.Pos() || nd.End() > il.Body.End() {
+			continue
+		}
+		as, ok := nd.(*ast.AssignStmt)
+		if !ok || len(as.Rhs) != 1 {
+			continue
+		}
+		if c, ok := unparen(as.Rhs[0]).(*ast.CallExpr); ok && il.IsElem(c.Fun) {
+			applyNode = nd
+			errObj = objOf(info, as.Lhs[len(as.Lhs)-1])
+		}
+	}
+	_ = rs
+	if applyNode == nil || errObj == nil {
+		r.Check(false, rule, con+":nil-skip", il.Stmt.Pos(), false, "", "nil entries are not skipped: the builder's application was not found")
+		r.Fail(rule, con+":error", il.Stmt.Pos(), "the builder's error is not bound and checked (`err := builder(c)`)")
+		return
+	}
+	ce := condEdge(w, info, 1)
+	failEdge := func(b *cfg.Block, i int, cond ast.Expr, in Facts) (gen, kill []string) {
+		gen, kill = ce(b, i, cond, in)
+		if be, ok := unparen(cond).(*ast.BinaryExpr); ok && (be.Op == token.NEQ || be.Op == token.EQL) {
+			if (objOf(info, be.X) == errObj && isNilIdent(info, be.Y)) || (objOf(info, be.Y) == errObj && isNilIdent(info, be.X)) {
+				if (be.Op == token.NEQ) == (i == 0) {
+					gen = append(gen, "failed")
+				} else {
+					kill = append(kill, "failed")
+				}
+			}
+		}
+		return
+	}
+	killOnApply := func(n ast.Node, in Facts) (gen, kill []string) {
+		if n == applyNode {
+			kill = append(kill, "failed")
+		}
+		kill = append(kill, killOnAssign(info, n)...)
+		return
+	}
+	must := fl.Solve(Spec{Must: true, Node: killOnApply, Edge: failEdge})
+	may := fl.Solve(Spec{Must: false, Node: killOnApply, Edge: failEdge})
+	elemName := objName(elem)
+	r.Check(must.Before[applyNode].Has(elemName+"=nonnil"), rule, con+":nil-skip", il.Stmt.Pos(), true,
+		"nil entries are skipped: a builder is applied only after it was found non-nil",
+		"nil entries are not skipped: the builder is applied without having been compared with nil")
+	bad := ""
+	if may.Before[applyNode].Has("failed") {
+		bad = "processing continues with the next builder after a failed one"
+	}
+	nFail := 0
+	okTail := true
+	for _, ex := range fl.Exits() {
+		if ex.Panic {
+			continue
+		}
+		failed := may.AtExit(ex).Has("failed")
+		if !failed {
+			if ex.Ret == nil || len(ex.Ret.Results) != 1 || !isNilIdent(info, ex.Ret.Results[0]) {
+				okTail = false
+			}
+			continue
+		}
+		nFail++
+		if !must.AtExit(ex).Has("failed") {
+			bad = "an exit is shared by the failing and the succeeding path"
+			continue
+		}
+		if ex.Ret == nil || len(ex.Ret.Results) != 1 {
+			bad = "the error branch does not return the error"
+			continue
+		}
+		res := ex.Ret.Results[0]
+		if wrap {
+			l := literalResult(w, info, body, res)
+			tvOK := false
+			if l != nil {
+				if tv, ok := info.Types[l]; ok && isNamedType(tv.Type, modPath, "ModuleError") {
+					tvOK = true
+				}
+			}
+			if !tvOK || litOf(res) == nil {
+				bad = "the error is returned as " + exprStr(res) + ", not wrapped in a ModuleError literal"
+			} else {
+				f := compositeFields(l)
+				if objOf(info, f["Cause"]) != errObj {
+					bad = "ModuleError.Cause is " + exprStr(f["Cause"]) + ", not the builder's error (double or missing wrap)"
+				}
+				if nameObj == nil || objOf(info, f["Module"]) != nameObj {
+					bad = "ModuleError.Module is " + exprStr(f["Module"]) + ", not the module's own name"
+				}
+			}
+		} else if objOf(info, res) != errObj {
+			bad = "AddModules returns " + exprStr(res) + " instead of the module's error unchanged"
+		}
+	}
+	if nFail == 0 && bad == "" {
+		bad = "a failing builder does not stop processing (no exit is reached with its error)"
+	}
+	// nothing else happens on the failing path: no call between the failed test and the return
+	for _, nd := range fl.Nodes() {
+		if must.Before[nd].Has("failed") {
+			if _, isRet := nd.(*ast.ReturnStmt); !isRet {
+				for range callsIn(nd, false) {
+					bad = "the error branch does more than return the error"
+				}
+			}
+		}
+	}
+	r.Check(bad == "", rule, con+":error", applyNode.Pos(), true,
+		"the first failing builder stops processing and its error is returned "+map[bool]string{true: "wrapped exactly once as ModuleError{Module: name, Cause: err}", false: "unchanged"}[wrap],
+		fi.Name()+": "+bad)
+	r.Check(okTail, rule, con+":tail", il.Stmt.End(), true, "nil is returned after all builders succeeded", "an exit that is not the failure of a builder returns something other than nil")
 }
 
 // ruleDeferredAddTotal: the deferred graph insertion used by Build has no
